@@ -2,6 +2,7 @@
   C13 — one call: the model's result is the reference's (`runPlain c = realise (shape c)`), on every call.
 -/
 import AttrsModel.Proofs.C13RefineT
+import AttrsModel.Proofs.C13RefineS
 import AttrsModel.Proofs.C13Eqv
 
 namespace Attrs.C13
@@ -45,17 +46,19 @@ theorem run_refines (c : Case) (s : Out) (hs : shape c = some s) : runPlain c = 
   | dict k ps => simp [hv] at hs
   | inst cls h fs =>
     simp only [hv] at hs
-    cases hapi : c.api <;> cases hrec : c.recurse <;> simp only [hapi, hrec, Option.some.injEq] at hs <;> subst hs
-    · -- asdict, recurse=False
-      simp [runPlain, hapi, hv, asdictTop, hrec, realise, shapeDFlat_eq_flatD, realiseR_flatD]
-    · -- asdict, recurse=True
-      simp [runPlain, hapi, hv, asdictTop, hrec, realise, fieldsD_refines c.opts cls fs]
-    · -- astuple, recurse=False
-      simp [runPlain, hapi, hv, astupleTop, hrec, realise_tfOut, realiseL_flatT]
-    · -- astuple, recurse=True
-      have := tupleOf_refines c.opts fs c.opts.filter
-      rw [withFilter_self] at this
-      simp [runPlain, hapi, hv, astupleTop, hrec, realise_tfOut, this]
+    cases hapi : c.api <;> cases hrec : c.recurse <;> cases hsub : c.activeSubst <;>
+      simp only [hapi, hrec, hsub, Option.some.injEq] at hs <;> subst hs
+    · simp [runPlain, hapi, hv, asdictTop, hrec, realise, shapeDFlat_eq_flatD, realiseR_flatD, hsub]
+    · rename_i sb
+      simp [runPlain, hapi, hv, asdictTopS, hrec, realise, realiseR_flatS, hsub]
+    · simp [runPlain, hapi, hv, asdictTop, hrec, realise, fieldsD_refines c.opts cls fs, hsub]
+    · rename_i sb
+      simp [runPlain, hapi, hv, asdictTopS, hrec, realise, fieldsS_refines c.opts sb cls fs, hsub]
+    all_goals first
+      | (simp [runPlain, hapi, hv, astupleTop, hrec, realise_tfOut, realiseL_flatT]; done)
+      | (have := tupleOf_refines c.opts fs c.opts.filter
+         rw [withFilter_self] at this
+         simp [runPlain, hapi, hv, astupleTop, hrec, realise_tfOut, this])
 
 /-! ### call counts, recurse=False -/
 
